@@ -3,6 +3,7 @@ import json, os
 VERIF = os.path.dirname(os.path.dirname(os.path.abspath(__file__)))
 S = os.path.join(VERIF, "seeded")
 res = json.load(open(os.path.join(S, "RESULTS.json")))
+first = json.load(open(os.path.join(S, "FIRST_RESULTS.json")))
 rows = []
 for name in sorted(n for n in os.listdir(S) if os.path.isdir(os.path.join(S, n))):
     meta = json.load(open(os.path.join(S, name, "meta.json")))
@@ -13,11 +14,12 @@ for name in sorted(n for n in os.listdir(S) if os.path.isdir(os.path.join(S, n))
     t = res.get(name + ":thorough")
     def cell(o):
         if not o: return "not run"
-        c = list(o["checks"].values())[0] if o.get("checks") else {}
+        cs = [c for c in o.get("checks", {}).values() if c.get("violations")] or list(o.get("checks", {}).values())
+        c = cs[0] if cs else {}
         fp = (c.get("fingerprints") or [""])[0]
         fp = " / ".join(fp.split(" | ")[1:3]) if fp else ""
         return ("**detected** (%s)" % fp) if o.get("detected") else "MISSED"
-    rows.append((name, meta["property"], ", ".join(files), cell(q), cell(t) if t else "-", meta.get("first_result", "")))
+    rows.append((name, meta["property"], ", ".join(files), cell(q), cell(t) if t else "-", first.get(name, "detected")))
 with open(os.path.join(S, "RESULTS.md"), "w") as f:
     f.write("# Seeded property-breaking changes\n\n"
             "Each directory holds `patch.diff` (a change to mouette that keeps the repository's 622 passing tests passing),\n"
